@@ -77,6 +77,17 @@ CHECKS["C04"] = dict(
    text="TLC checks NeverDifferent, WireImpliesStream and agreement with the reference deserializer for both machines (lazy containers forced only where FromWire reads them; element-type guard yielding nil containers; Skip on the stream path) on every byte string over a 9-symbol alphabet up to length 5 (7 thorough; length 8 = 387 M states verified once) for 8 schemas. Real code: all strings up to length 3-4 for those schemas plus valid encodings and byte-level mutants of the F1/multi-field types are decoded on both paths under 4 segmentations and survivors re-serialized on both paths; TLC checks the paths never differ, value-path acceptance implies stream-path acceptance, segmentation independence, serializer agreement, and zero drift from the two machines.",
    note="Trusted: TLC, reflection projection, IDL renderer. Inputs beyond the bounded families are sampled mutants.")
 
+CHECKS["C05"] = dict(
+   level="model_checking", ref="DESIGN.md section 5 (C05), Evolve.tla",
+   technique="declarative projection Project(W, R, v) in TLA+ (Evolve.tla) model-checked by TLC against the reference deserializer and both path machines over all evolved writer schemas, writer values and foreign-field injections (MCEvolve.tla); the model's states are printed as cases and replayed on code generated for the reader schema; judged by C05Trace.tla",
+   text="TLC checks, for 7203 writer schemas (each of the reader struct's 4 fields unchanged / removed / renamed / requiredness flipped / retyped with the same or another wire type / container element retyped, x 3 sets of new fields incl. a negative id), 3 writer values each and every injection of 5 foreign fields (incl. a known id with another wire type and nested containers) at every field boundary of every depth (262k states), that the declarative projection equals the reference deserializer and both machines of GenPaths.tla. A deterministic sample of those states (1/40 quick, 1/3 thorough, offset by the seed) is decoded by the generated reader on the value path and the stream path under 4 segmentations; TLC requires exactly the projection, and an error exactly when the projection is undefined (required field without default absent or mistyped).",
+   note="The writer side is the specification's reference encoder; only the reader is code under test. Trusted: TLC, reflection projection, IDL renderer.")
+CHECKS["C14"] = dict(
+   level="model_checking", ref="DESIGN.md section 5 (C14), Equals.tla",
+   technique="wire.ValuesAreEqual transcribed into TLA+ (Equals.tla) and model-checked by TLC against independent structural equality, symmetry and transitivity over a bounded universe of decodable values; TLC-generated triples replayed on generated Equals / ToWire and on wire.ValuesAreEqual; judged by C14Trace.tla",
+   text="TLC checks WireEq = Structural, symmetry and transitivity on all same-typed pairs (and triples through an equal third) of the decodable part of the wire universe (84k states quick, 787k thorough). For every type of family F1, every ordered pair of its values becomes a triple (value, permuted re-encoding, other value): the generated code decodes them and the 3x3 Equals matrix, the ValuesAreEqual matrix of the ToWire forms and nil receiver/argument behaviour are judged against structural equality of the projected logical values (doubles numerically, sets/maps as sets), reflexivity, symmetry, transitivity. 21k wire-value pairs (universe peers, one-step perturbations incl. +0/-0, random nested values) are judged against Structural and the transcription (zero drift).",
+   note="Claimed domain as in the property: NaN-free, duplicate-free sets/keys/field ids. Trusted: TLC, reflection projection.")
+
 NOT_YET = {}
 
 def main():
